@@ -74,6 +74,15 @@ func (cx *Ctx) strParts0(v ssa.Value, sub map[*ssa.Parameter]ssa.Value, depth in
 					return cx.strParts0(st[0], sub, depth+1)
 				}
 			}
+			// a variable of the enclosing function, assigned once there (`prefix := scheme(flag) + "://"` captured by
+			// the per-request closure)
+			if fv, ok := x.X.(*ssa.FreeVar); ok {
+				if cell := cx.Fx.ownerCell(fv); cell != nil {
+					if st := cx.Fx.storesToCell(cell); len(st) == 1 {
+						return cx.strParts0(st[0], map[*ssa.Parameter]ssa.Value{}, depth+1)
+					}
+				}
+			}
 		}
 	case *ssa.Call:
 		// append(octets, text...): concatenation
